@@ -44,6 +44,7 @@ type Reader struct {
 	ZeroReads   bool  // occasionally return (0, nil), at most 3 in a row
 	FailAt      int   // offset at which the reader fails (sticky); <0 = never
 	FailErr     error // the error it fails with (default ErrInjected)
+	ErrWithData bool  // deliver the last bytes before FailAt together with the error, in one Read
 	NoClose     bool
 
 	pos       int
@@ -100,6 +101,10 @@ func (r *Reader) Read(p []byte) (int, error) {
 	}
 	copy(p, r.Data[r.pos:r.pos+n])
 	r.pos += n
+	if r.ErrWithData && r.FailAt >= 0 && r.pos >= r.FailAt {
+		r.failed = true
+		return n, r.failErr()
+	}
 	if r.pos >= len(r.Data) && r.EOFWithData && (r.FailAt < 0 || r.FailAt > len(r.Data)) {
 		r.done = true
 		return n, io.EOF
